@@ -9,6 +9,7 @@ mod util;
 mod c02;
 mod c03;
 mod c09;
+mod c12;
 mod c13;
 mod c20;
 
@@ -19,6 +20,7 @@ fn main() {
         "C02" => c02::run_case,
         "C03" => c03::run_case,
         "C09" => c09::run_case,
+        "C12" => c12::run_case,
         "C13" => c13::run_case,
         "C20" => c20::run_case,
         _ => { eprintln!("usage: verif_harness <property id>"); std::process::exit(2) }
